@@ -137,14 +137,18 @@ SetUpLine(r, s, i) ==
   IF SetUpErr(s)
   THEN Res(r.err /\ Flags(r, s) /\ Len(r.ev) = 0 /\ r.np = s.np, "new", s, i, memo, [cnt EXCEPT !.errSetUp = @ + 1])
   ELSE
-    LET s1 == IF Derives(s) THEN NewPointsOp(s, r.np) ELSE s
-        s2 == SetUpOp(s, r.np)
+    \* the model follows the removals observed (they all precede the allocation decisions)
+    LET s0 == ApplyRm(s, r)
+        s1 == IF Derives(s) THEN NewPointsOp(s0, r.np) ELSE s0
+        s2 == SetUpOp(s0, r.np)
+        rmBeforeInit == \A x, y \in 1..Len(r.ev) : (r.ev[x][1] = 2 /\ r.ev[y][1] = 1) => y < x
         ins == Inits(r)
         initOK(e, c) == e[3] = (IF Keeps(c, s1.np, s1.nd) THEN 1 ELSE 0) /\ e[4] = s1.np /\ e[5] = s1.nd
         i2 == [i EXCEPT !.spk = IF Derives(s) THEN << 2, i.zoom >> ELSE @,
                         !.autoT = IF Derives(s) /\ i.zoom = 0 /\ @ = 0 THEN i.tm ELSE @]
     IN Res(/\ ~r.err /\ r.ok /\ Flags(r, s2) /\ r.hasSp /\ r.np = s2.np
-           /\ IF Derives(s) THEN SampledOnce(r) /\ Needed(s, {0, 1}) \subseteq RmKinds(r) ELSE Len(Samples(r)) = 0 /\ RmKinds(r) = {}
+           /\ rmBeforeInit
+           /\ IF Derives(s) THEN SampledOnce(r) /\ Needed(s, {0, 1}) \subseteq RmKinds(r) ELSE Len(Samples(r)) = 0
            /\ IF s.useCache
               THEN /\ Len(ins) = 2 /\ { ins[1][2], ins[2][2] } = {0, 1}
                    /\ \A x \in 1..2 : initOK(ins[x], IF ins[x][2] = 1 THEN s1.actC ELSE s1.attC)
